@@ -723,6 +723,27 @@ func (x *c12) checkFatal() {
 				if before {
 					received++
 				}
+				// Degenerate count: the fatal closer is the only closer (grace period
+				// set, no user closer; len(closers) == 1). Then "len(closers)-1
+				// results collected" holds before the first receive of the loop, and
+				// that receive can only be satisfied by the fatal closer itself: the
+				// release has to be executed in an iteration that exists for
+				// len(closers) == 1 (tested index First .. 1+Off-1) and before that
+				// iteration's receive. A release placed after the receive has
+				// collected one result more than its guard index says, so for the
+				// arithmetic to come out at len(closers)-1 its guard must name the
+				// iteration before the last one — which does not exist when there is
+				// only one closer.
+				if received == -1 {
+					at := 1 + thr // tested index at which the guard holds when len(closers) == 1
+					if at < l.First || at > 1+l.Off-1 || before {
+						where := "after"
+						if !before {
+							where = "before"
+						}
+						probs[fmt.Sprintf("closeFatalShutdown is closed %s the receive of the iteration whose index equals len(closers)%+d; the first iteration has index %d, so when the fatal-shutdown closer is the only closer (grace period set, no user closer) that iteration does not exist and the loop blocks on the fatal closer's own result without ever releasing it: Run and Close hang until the grace timer expires and the fatal action fires although no closer was pending. The release must run when len(closers)-1 results are collected and BEFORE the next receive", where, thr, l.First)] = true
+					}
+				}
 				if received != -1 {
 					probs[fmt.Sprintf("closeFatalShutdown is closed when len(closers)%+d closer results have been collected instead of len(closers)-1: too early and the fatal closer is released while closers are still running (they can outlast the grace period without the fatal action); too late and Run waits out the grace period and fires the fatal action although the closers finished", received)] = true
 				}
